@@ -11,6 +11,7 @@ import Hy.Drv.Salamander
 import Hy.Drv.Acl
 import Hy.Drv.Punch
 import Hy.Drv.Stats
+import Hy.Drv.Reconnect
 
 open Hy.Drv
 
@@ -43,4 +44,5 @@ def main (args : List String) : IO UInt32 := do
   | ["punchcodec"] => loopPure stdin stdout Punch.stepCodec; return 0
   | ["punchconn"] => loopState stdin stdout Punch.stepConn Punch.initConn; return 0
   | ["stats"] => loopState stdin stdout Stats.step Stats.init; return 0
+  | ["reconnect"] => loopPure stdin stdout Reconnect.step; return 0
   | _ => IO.eprintln "usage: hydrv <component>"; return 2
